@@ -320,6 +320,11 @@ func (c *AttackCtx) Apply(root *etree.Element, op Op) *etree.Element {
 				if op.C%2 == 0 && len(cp.ChildElements()) == 0 {
 					cp.SetText(op.S)
 				}
+				if tg == "Reference" && op.C%3 == 0 {
+					// a further Reference that points somewhere else (multi-Reference SignedInfo)
+					cp.RemoveAttr("URI")
+					cp.CreateAttr("URI", "#_elsewhere")
+				}
 				if op.C%4 < 2 {
 					e.Parent().InsertChildAt(e.Index(), cp)
 				} else {
